@@ -1063,10 +1063,15 @@ Proof.
     assert (Hui : us_internal cfg (srch st) rec1 t = us_internal cfg (srch st) rec t)
       by (destruct Hrec1 as [->|[-> _]]; reflexivity).
     assert (HSA : exists sa, (if du then us_internal cfg (srch st) rec1 t else Ok (srch st)) = Ok sa /\
-              pend sa = pend (srch st) /\ (forall e, In e (obs sa) -> In e (obs (srch st))) /\ obs_nodup sa).
-    { destruct du; [|exists (srch st); auto]. rewrite Hui. destruct (us_internal_spec _ _ _ _ G) as [sa [A [B [_ [C [D _]]]]]].
-      exists sa. auto. }
-    destruct HSA as [sa [EA [Hpa [Hoa Hna]]]]. rewrite EA. cbn [bind].
+              pend sa = pend (srch st) /\ (forall e, In e (obs sa) -> In e (obs (srch st))) /\ obs_nodup sa /\
+              (forall e, In e (obs (srch st)) -> In e (obs sa) \/
+                 (pol cfg = RungsAndLast /\ exists r' v', reported rec = Some (r', v') /\ keep_case rec = false /\ fst e = (t, r'))) /\
+              (du = true -> pol cfg = RungsAndLast -> forall r' v', reported rec = Some (r', v') -> keep_case rec = false ->
+                 forall c, ~ In ((t, r'), c) (obs sa))).
+    { destruct du; [|exists (srch st); repeat split; auto; discriminate]. rewrite Hui.
+      destruct (us_internal_spec _ _ _ _ G) as [sa [A [B [_ [C [D [E0 F0]]]]]]].
+      exists sa. repeat split; auto. }
+    destruct HSA as [sa [EA [Hpa [Hoa [Hna [Hremoved Hgone]]]]]]. rewrite EA. cbn [bind].
     assert (Hnew : lookup_rep (t, r) (reps st) = None).
     { destruct (lookup_rep (t, r) (reps st)) eqn:EN; [|reflexivity].
       assert (r <= hi rec) by (apply (g_reps _ _ _ _ G); congruence). lia. }
@@ -1088,13 +1093,24 @@ Proof.
     set (fin := if continues ti then rc3 else cleanup_rec rec4 PAUSE).
     assert (Hpb_nd : NoDup (pend sb)) by (apply Hnb; rewrite Hpa; exact Hnd).
     (* the searcher state after the event, as far as trial t is concerned *)
-    assert (HO : forall x c, In ((t, x), c) (obs s2) -> (x = r /\ c = crit cfg v /\ du = true) \/ (x < r /\ In ((t, x), c) (obs (srch st)))).
+    assert (HO : forall x c, In ((t, x), c) (obs s2) -> (x = r /\ c = crit cfg v /\ du = true) \/
+                  (x < r /\ In ((t, x), c) (obs (srch st)) /\ In ((t, x), c) (obs sa))).
     { intros x c Hin. subst s2. destruct du.
       - cbn [label obs] in Hin. rewrite Hob in Hin. apply In_set_obs in Hin as [[E1 E2]|[[_ H]|[_ H]]].
         + inversion E1; subst. auto.
         + right. split; [eapply Hobs_lt; eauto | auto].
         + right. split; [eapply Hobs_lt; eauto | auto].
       - rewrite Hob in Hin. right. split; [eapply Hobs_lt; eauto | auto]. }
+    assert (HLpres : forall x, is_labeled (srch st) t x = true ->
+              (pol cfg = RungsAndLast -> forall r' v', reported rec = Some (r', v') -> keep_case rec = false -> x <> r') ->
+              is_labeled s2 t x = true).
+    { intros x Hx Hne. apply is_labeled_In in Hx as [c Hc]. apply is_labeled_In.
+      destruct (Hremoved _ Hc) as [Hsa|[EP [r' [v' [A [B C]]]]]].
+      - subst s2. destruct du.
+        + cbn [label obs]. rewrite Hob. destruct (Z.eq_dec x r) as [->|Hxr];
+            [exists (crit cfg v); apply set_obs_has | exists c; apply set_obs_keeps; [intro E0; inversion E0; congruence | exact Hsa]].
+        + exists c. rewrite Hob. exact Hsa.
+      - exfalso. cbn in C. inversion C; subst. eapply Hne; eauto. }
     assert (HPd : forall p, In (t, p) (pend s2) -> (In p P \/ In (t, p) (pend (srch st))) /\ (du = true -> p <> r)).
     { intros p Hin. subst s2. destruct du.
       - cbn [label pend] in Hin. split.
@@ -1126,9 +1142,9 @@ Proof.
     assert (Hfin : reported fin = Some (r, v) /\ lur fin = (if du then Some r else lur rec) /\ in_rungs fin = in_rungs rec1 /\
                    dec fin = (if continues ti then CONTINUE else PAUSE) /\
                    (continues ti = true -> running fin = running rec /\ task_bracket fin = task_bracket rec) /\
-                   (continues ti = false -> running fin = None)).
+                   (continues ti = false -> running fin = None) /\ keep_case fin = reached ti).
     { subst fin rec4 rc3. destruct (continues ti), du; destruct Hrec1 as [->|[-> _]]; cbn; repeat split; auto; discriminate. }
-    destruct Hfin as [F1 [F2 [F3 [F4 [F5 F6]]]]].
+    destruct Hfin as [F1 [F2 [F3 [F4 [F5 [F6 F7]]]]]].
     assert (Hhi : hi fin = r) by (unfold hi; rewrite F1; reflexivity).
     assert (Hres : exists st', (match d with CONTINUE => {| srch := s2; trials := upd t rec4 (trials st); reps := rp' |}
                                 | _ => on_trial_remove {| srch := s2; trials := upd t rec4 (trials st); reps := rp' |} t end) = st' /\
@@ -1141,7 +1157,7 @@ Proof.
     exists st', (Some d). split; [rewrite <- Est; reflexivity|]. rewrite Es, Er. split; [exact Hnd2|].
     exists fin. split; [exact Efind|].
     constructor; rewrite ?Hhi.
-    + intros x c Hin. destruct (HO x c Hin) as [[-> [-> _]]|[_ Hold]].
+    + intros x c Hin. destruct (HO x c Hin) as [[-> [-> _]]|[_ [Hold _]]].
       * exists v. split; [exact Hnew' | reflexivity].
       * destruct (g_val _ _ _ _ G x c Hold) as [v0 [A B]]. exists v0. split; [apply Hmono; exact A | exact B].
     + intros x c Hin. destruct (HO x c Hin) as [[-> _]|[Hlt _]]; lia.
@@ -1172,6 +1188,51 @@ Proof.
       inversion Hin; subst L p. split; [exact Hrr|]. split; [lia|]. intros _.
       rewrite F4, (H6 HS eq_refl). split; [discriminate|]. split; [reflexivity|]. rewrite F2.
       assert (Edu : du = true) by (apply HP4; left; exact Hrr). rewrite Edu. exists r. split; [reflexivity | lia].
+    + (* g_in_le *)
+      intros L p Hin. rewrite F3 in Hin.
+      assert (Hold : In (L, p) (in_rungs rec) -> In L (rung_levels cfg) /\ L <= r).
+      { intro Ho. destruct (g_in_le _ _ _ _ G L p Ho). split; [assumption | lia]. }
+      destruct Hrec1 as [->|[-> [Hrr Hre]]]; [apply Hold; exact Hin|].
+      cbn [add_rung in_rungs] in Hin. apply in_app_or in Hin as [Hin|[Hin|[]]]; [apply Hold; exact Hin|].
+      inversion Hin; subst L p. split; [exact Hrr | lia].
+    + (* g_in_lab *)
+      intros L p Hin. rewrite F3 in Hin.
+      assert (Hold : In (L, p) (in_rungs rec) -> is_labeled s2 t L = true).
+      { intro Ho. apply HLpres; [apply (g_in_lab _ _ _ _ G L p Ho)|]. intros _ r' v' Hr' Hk ->.
+        destruct (g_keep _ _ _ _ G r' v' Hr') as [_ Hk2]. specialize (Hk2 Hk).
+        assert (in_rung rec r' = true) by (apply in_rung_In; eauto). congruence. }
+      destruct Hrec1 as [->|[-> [Hrr Hre]]]; [apply Hold; exact Hin|].
+      cbn [add_rung in_rungs] in Hin. apply in_app_or in Hin as [Hin|[Hin|[]]]; [apply Hold; exact Hin|].
+      inversion Hin; subst L p. apply HLd. apply HP4. left. exact Hrr.
+    + (* g_keep *)
+      intros x v0 Ex. rewrite F1 in Ex. inversion Ex; subst x v0. rewrite F7. unfold in_rung. rewrite F3. split.
+      * intro Hre. destruct (H8 Hre) as [->|Hmx]; [left | right; exact Hmx].
+        cbn [add_rung in_rungs]. rewrite existsb_app. cbn. rewrite Z.eqb_refl. apply orb_true_r.
+      * intro Hre. rewrite (H9 Hre). destruct (existsb (fun e : Z * bool => fst e =? r) (in_rungs rec)) eqn:EX; [|reflexivity].
+        apply existsb_exists in EX as [[L p] [Hi HE]]. cbn in HE. destruct (g_in_le _ _ _ _ G L p Hi). lia.
+    + (* g_pol *)
+      intros x c Hin. destruct (HO x c Hin) as [[-> [-> Edu]]|[Hlt [Hold Hsa]]].
+      * destruct (pol cfg) eqn:EPol; [left; apply HP5; auto | exact I | right; exists v; exact F1].
+      * pose proof (g_pol _ _ _ _ G x c Hold) as GP. destruct (pol cfg) eqn:EPol; [|exact I|].
+        -- destruct GP as [H|[H _]]; [left; exact H | congruence].
+        -- assert (Hmono_in : in_rung rec x = true -> in_rung fin x = true).
+           { unfold in_rung. rewrite F3. destruct Hrec1 as [->|[-> _]]; [auto|]. cbn [add_rung in_rungs]. rewrite existsb_app.
+             intros ->. reflexivity. }
+           destruct GP as [H|[v0 H]]; [left; auto|].
+           destruct (keep_case rec) eqn:EK.
+           ++ destruct (g_keep _ _ _ _ G x v0 H) as [Hk _]. destruct (Hk EK) as [Hi|Hmx]; [left; auto|].
+              exfalso. unfold hi in Hr. rewrite H in Hr. lia.
+           ++ exfalso. assert (Edu : du = true) by (apply HP3; congruence). exact (Hgone Edu eq_refl x v0 H EK c Hsa).
+    + (* g_present *)
+      intros x Hx Hsel. subst rp'. rewrite lookup_note in Hx. destruct (lookup_rep (t, x) (reps st)) eqn:EL.
+      * apply HLpres; [apply (g_present _ _ _ _ G x); [congruence | exact Hsel]|].
+        intros EP. destruct Hsel as [H|[H _]]; congruence.
+      * destruct (key_eqb (t, x) (t, r)) eqn:EK; [|congruence]. apply key_eqb_eq in EK. inversion EK; subst x.
+        apply HLd. destruct Hsel as [H|[_ H]]; [apply HP3; congruence | apply HP4; exact H].
+    + (* g_dense *)
+      intros x Hx. destruct (Z.eq_dec x r) as [->|Hxr]; [congruence|].
+      assert (HD : lookup_rep (t, x) (reps st) <> None) by (apply (g_dense _ _ _ _ G); lia).
+      destruct (lookup_rep (t, x) (reps st)) eqn:EL; [|congruence]. rewrite (Hmono _ _ EL). discriminate.
   - (* a run restarted from scratch re-reports a level up to resume_from: ignored *)
     destruct (reported rec) as [[r0 v0]|] eqn:ERp; [discriminate|]. destruct (running rec) as [[ms [f|]]|] eqn:ERn; try discriminate.
     apply andb_true_iff in HB as [HB1 HB2].
